@@ -8,5 +8,6 @@ func All() map[string]core.Prop {
 		"C01": C01{},
 		"C02": C02{},
 		"C03": C03{},
+		"C04": C04{},
 	}
 }
